@@ -198,6 +198,15 @@ def writers_of(prog, owner, field, crates=("marginfi", "marginfi_type_crate")):
     return out
 
 
+def balance_resetters(prog, balance_adt):
+    """(resetters, slot creators): functions that overwrite a whole Balance.  The one that can fail with LendingAccountBalanceSlotsFull is the
+    slot *creator* (it writes a fresh slot - field by field or by assigning into lending_account.balances[i]); the others reset a slot."""
+    whole = [k for k, kinds in writers_of(prog, balance_adt, "*") if "assign" in kinds]
+    creators = [k for k in whole if A.error_variant_blocks(prog.fns[k], "LendingAccountBalanceSlotsFull")
+                or any(A.error_variant_blocks(prog.fns[ck], "LendingAccountBalanceSlotsFull") for _, ck in prog.fns[k].closures_created() if ck in prog.fns)]
+    return [k for k in whole if k not in creators], creators
+
+
 def defining_call(f, o, hops=0, path=()):
     """Walk back from operand o through moves, tuple/struct construction + projection, and pass-through
     adaptors (`?`, into, ok_or_else, unwrap ...) to the call terminator that produced the value.
